@@ -1788,7 +1788,13 @@ rrul_fill_Hly(echs_instant_t *restrict tgt, size_t nti, rrulsp_t rr)
 	/* set up the wday mask */
 	with (int tmp) {
 		for (bitint_iter_t dowi = 0UL;
-		     (tmp = bi447_next(&dowi, &rr->dow), dowi);) {
+		     (tmp = bi447_next(&dowi, &rr->dow), dowi);)
+#if defined ECHSE_VERIF
+		__CPROVER_assigns(dowi, tmp, wd_mask)
+		__CPROVER_loop_invariant(CUR_OK_447(&rr->dow, dowi) && dowi <= 1000U)
+		__CPROVER_decreases(1000 - (long)dowi)
+#endif	/* ECHSE_VERIF */
+		{
 			if (tmp >= (int)MON && tmp <= (int)SUN) {
 				wd_mask |= (uint8_t)(1U << (unsigned int)tmp);
 			} else {
@@ -1807,7 +1813,13 @@ rrul_fill_Hly(echs_instant_t *restrict tgt, size_t nti, rrulsp_t rr)
 	/* set up the month mask */
 	with (unsigned int tmp) {
 		for (bitint_iter_t moni = 0UL;
-		     (tmp = bui31_next(&moni, rr->mon), moni);) {
+		     (tmp = bui31_next(&moni, rr->mon), moni);)
+#if defined ECHSE_VERIF
+		__CPROVER_assigns(moni, tmp, m_mask)
+		__CPROVER_loop_invariant(CUR_OK_BUI31(moni, rr->mon) && moni <= 64U)
+		__CPROVER_decreases(64 - (long)moni)
+#endif	/* ECHSE_VERIF */
+		{
 			m_mask |= 1U << tmp;
 		}
 	}
@@ -1820,7 +1832,13 @@ rrul_fill_Hly(echs_instant_t *restrict tgt, size_t nti, rrulsp_t rr)
 	/* set up the days masks */
 	with (int tmp) {
 		for (bitint_iter_t domi = 0UL;
-		     (tmp = bi31_next(&domi, rr->dom), domi);) {
+		     (tmp = bi31_next(&domi, rr->dom), domi);)
+#if defined ECHSE_VERIF
+		__CPROVER_assigns(domi, tmp, posd_mask, negd_mask)
+		__CPROVER_loop_invariant(CUR_OK_BI31(domi, rr->dom) && domi <= 64U)
+		__CPROVER_decreases(64 - (long)domi)
+#endif	/* ECHSE_VERIF */
+		{
 			if (tmp > 0) {
 				posd_mask |= 1U << tmp;
 			} else if (tmp < 0) {
@@ -1838,7 +1856,13 @@ rrul_fill_Hly(echs_instant_t *restrict tgt, size_t nti, rrulsp_t rr)
 	/* set up the hour mask */
 	with (unsigned int tmp) {
 		for (bitint_iter_t Hi = 0UL;
-		     (tmp = bui31_next(&Hi, rr->H), Hi);) {
+		     (tmp = bui31_next(&Hi, rr->H), Hi);)
+#if defined ECHSE_VERIF
+		__CPROVER_assigns(Hi, tmp, H_mask)
+		__CPROVER_loop_invariant(CUR_OK_BUI31(Hi, rr->H) && Hi <= 64U)
+		__CPROVER_decreases(64 - (long)Hi)
+#endif	/* ECHSE_VERIF */
+		{
 			H_mask |= 1U << tmp;
 		}
 	}
@@ -1860,7 +1884,17 @@ rrul_fill_Hly(echs_instant_t *restrict tgt, size_t nti, rrulsp_t rr)
 			     if (w > SUN) {
 				     w = w % 7U ?: SUN;
 			     }
-			     while (d > maxd) {
+			     while (d > maxd)
+#if defined ECHSE_VERIF
+			     __CPROVER_assigns(y, m, d, maxd, yd, maxy)
+			     __CPROVER_loop_invariant(
+				     1U <= m && m <= 12U && 1U <= d && d <= 100U && y <= 2200U && y + d <= 2200U &&
+				     maxd == (unsigned int)S_MDAYS(y, m) &&
+				     ((y == __CPROVER_loop_entry(y) && m == __CPROVER_loop_entry(m) && d == __CPROVER_loop_entry(d)) ||
+				      y > __CPROVER_loop_entry(y) || (y == __CPROVER_loop_entry(y) && m > __CPROVER_loop_entry(m))))
+			     __CPROVER_decreases(d)
+#endif	/* ECHSE_VERIF */
+			     {
 				     d--, d %= maxd, d++;
 				     if (++m > 12U) {
 					     y++;
@@ -1871,7 +1905,16 @@ rrul_fill_Hly(echs_instant_t *restrict tgt, size_t nti, rrulsp_t rr)
 				     maxd = __get_ndom(y, m);
 			     }
 		     }
-	     })) {
+	     }))
+#if defined ECHSE_VERIF
+	__CPROVER_assigns(y, m, d, H, w, yd, maxd, maxy, res, __CPROVER_object_upto(tgt, 2U * GRP_CCH_OFF * sizeof(*tgt)))
+	__CPROVER_loop_invariant(
+		1U <= m && m <= 12U && 1U <= d && d <= maxd && maxd == (unsigned int)S_MDAYS(y, m) &&
+		1U <= w && w <= 7U && H < 24U && y <= 2200U && res <= nti &&
+		VERIF_DLY_SLOT_OK(tgt, verif_k, res, proto, rr->until))
+	__CPROVER_decreases(2201 - (long)y, 12 - (long)m, 31 - (long)d, 23 - (long)H)
+#endif	/* ECHSE_VERIF */
+	{
 		/* we're subtractive, so check if the current ymd matches
 		 * if not, just continue and check the next candidate */
 		if (!(wd_mask & (1U << w))) {
@@ -1891,7 +1934,13 @@ rrul_fill_Hly(echs_instant_t *restrict tgt, size_t nti, rrulsp_t rr)
 			/* iterate manually */
 			int tmp;
 			for (bitint_iter_t doyi = 0UL;
-			     (tmp = bi383_next(&doyi, &rr->doy), doyi);) {
+			     (tmp = bi383_next(&doyi, &rr->doy), doyi);)
+#if defined ECHSE_VERIF
+			__CPROVER_assigns(doyi, tmp)
+			__CPROVER_loop_invariant(CUR_OK_383(&rr->doy, doyi) && doyi <= 1000U)
+			__CPROVER_decreases(1000 - (long)doyi)
+#endif	/* ECHSE_VERIF */
+			{
 				if (tmp > 0 && (unsigned int)tmp == yd ||
 				    tmp < 0 && maxy - ++tmp == yd) {
 					/* that's clearly a match */
@@ -1904,7 +1953,15 @@ rrul_fill_Hly(echs_instant_t *restrict tgt, size_t nti, rrulsp_t rr)
 	bang:
 		for (ENUM_INIT(e, iS, iM);
 		     /* the cache may be full before the hour is through */
-		     res < nti && ENUM_COND(e, iS, iM); ENUM_ITER(e, iS, iM)) {
+		     res < nti && ENUM_COND(e, iS, iM); ENUM_ITER(e, iS, iM))
+#if defined ECHSE_VERIF
+		__CPROVER_assigns(iS, iM, res, __CPROVER_object_upto(tgt, 2U * GRP_CCH_OFF * sizeof(*tgt)))
+		__CPROVER_loop_invariant(
+			iS <= e.nS && iM < e.nM && res <= nti &&
+			VERIF_DLY_SLOT_OK(tgt, verif_k, res, proto, rr->until))
+		__CPROVER_decreases((long)e.nM - (long)iM, (long)e.nS - (long)iS)
+#endif	/* ECHSE_VERIF */
+		{
 			echs_instant_t x = {
 				.y = y,
 				.m = m,
